@@ -254,6 +254,14 @@ def body(ch, ctx):
         if k_ in got and got[k_] != v:
             ctx.fail("feature-columns-differ", dict(sig, derived=k_ in derived, explicit_line=k_ in explicit_ids), file=texts, id=k_,
                      got=got[k_], expected=v)
+    from gv.model import bins_ref
+    for fid, st, en, b in db.execute("SELECT id, start, end, bin FROM features").fetchall():
+        if st is None or en is None or st < 1:
+            continue
+        lvl = bins_ref.smallest_level_containing(st - 1, en)
+        want_bin = bins_ref.OFFS[lvl] + ((st - 1) >> bins_ref.SHIFTS[lvl])
+        ctx.check(b == want_bin, "stored-bin-differs-from-coordinates", dict(sig, derived=fid in derived), file=texts, id=fid, start=st, end=en,
+                  bin=repr(b)[:60], expected=want_bin)
     for k_ in derived:
         try:
             db[k_]
